@@ -17,16 +17,17 @@ Check C12_loop_alive :
   forall thr e0 bc timeout h, e_tag e0 = TDisconnected ->
   d_status (drun E U D e_tag e_user e_disc e_reset e_opened e_closed e_data e_wc e_service e_nst thr
                  (dinit E e0 bc timeout) h) <> Dead.
-Check C12_loop_alive_refuted_huge_timeout :
-  d_status (i_drun w_cfg false w_init_huge [(0, DOp OpStart); (0, DConnOk)]) = Panicked /\
-  d_status (i_drun w_cfg true w_init_huge [(0, DOp OpStart); (0, DCheck)]) = Panicked.
-Check C12_stop_stops_refuted : forall thr n,
-  cur (i_drun w_cfg thr w_init (w_d13_prefix ++ w_idle n)) = CConnected /\
-  d_status (i_drun w_cfg thr w_init (w_d13_prefix ++ w_idle n)) = Running /\
-  c_des (d_c (i_drun w_cfg thr w_init (w_d13_prefix ++ w_idle n))) = CStopped /\
-  count_stopped (d_log (i_drun w_cfg thr w_init (w_d13_prefix ++ w_idle n))) = 0%nat /\
-  d_log (i_drun w_cfg thr w_init (w_d13_prefix ++ w_idle n)) = [EvAttempt; EvSuccess] /\
-  d_wire (i_drun w_cfg thr w_init (w_d13_prefix ++ w_idle n)) = [16; 15; 0; 4; 77; 81; 84; 84; 5; 2; 0; 0; 0; 0; 2; 97; 97].
+Check C12_loop_alive_huge_timeout :
+  d_status (i_drun w_cfg false w_init_huge [(0, DOp OpStart); (0, DConnOk)]) = Running /\
+  cur (i_drun w_cfg false w_init_huge [(0, DOp OpStart); (0, DConnOk)]) = CConnected /\
+  d_status (i_drun w_cfg true w_init_huge [(0, DOp OpStart); (0, DCheck); (0, DConnFail)]) = Running /\
+  cur (i_drun w_cfg true w_init_huge [(0, DOp OpStart); (0, DCheck); (0, DConnFail)]) = CPendingReconnect.
+Check C12_deadline_total : forall site t d, t + U32S <= IMAX -> exists r, add_saturating site t d = Ok r.
+Check C12_stop_during_handshake_stops : forall thr,
+  cur (i_drun w_cfg thr w_init w_d13_prefix) = CStopped /\
+  d_status (i_drun w_cfg thr w_init w_d13_prefix) = Running /\
+  c_stop (d_c (i_drun w_cfg thr w_init w_d13_prefix)) = SNone /\
+  d_log (i_drun w_cfg thr w_init w_d13_prefix) = [EvAttempt; EvFailure EUserInitiatedDisconnect false; EvStopped].
 Check C12_stop_stops :
   forall E U D e_tag e_user e_disc e_reset e_opened e_closed e_data e_wc e_service e_nst,
   engine_facts E U D e_tag e_user e_disc e_reset e_opened e_closed e_data e_wc e_service ->
@@ -38,6 +39,14 @@ Check C12_stop_stops :
   exists evs, d_log s' = d_log s ++ evs /\
               count_stopped evs = (if cstate_eqb (cur s) CStopped then 0 else 1)%nat /\
               existsb is_attempt_ev evs = false.
+Check C12_stop_waits_only_when_established :
+  forall E U D e_tag e_user e_disc e_reset e_opened e_closed e_data e_wc e_service e_nst,
+  engine_facts E U D e_tag e_user e_disc e_reset e_opened e_closed e_data e_wc e_service ->
+  forall thr e0 bc timeout, e_tag e0 = TDisconnected -> forall h now d,
+  let s := reach E U D e_tag e_user e_disc e_reset e_opened e_closed e_data e_wc e_service e_nst thr e0 bc timeout h in
+  d_status s = Running ->
+  let c' := handle_op E U D e_tag e_user e_disc e_reset (d_c s) now (OpStop d) in
+  c_stop c' = SDisc -> c_cur c' = CConnected /\ e_tag (c_eng c') = TConnected.
 Check C12_restartable :
   forall E U D e_tag e_user e_disc e_reset e_opened e_closed e_data e_wc e_service e_nst thr e0 bc timeout h now,
   let s := reach E U D e_tag e_user e_disc e_reset e_opened e_closed e_data e_wc e_service e_nst thr e0 bc timeout h in
@@ -58,8 +67,10 @@ Print Assumptions C12_transition_table.
 Print Assumptions C12_transition_table_complete.
 Print Assumptions C12_event_grammar.
 Print Assumptions C12_loop_alive.
-Print Assumptions C12_loop_alive_refuted_huge_timeout.
-Print Assumptions C12_stop_stops_refuted.
+Print Assumptions C12_loop_alive_huge_timeout.
+Print Assumptions C12_deadline_total.
+Print Assumptions C12_stop_during_handshake_stops.
 Print Assumptions C12_stop_stops.
+Print Assumptions C12_stop_waits_only_when_established.
 Print Assumptions C12_restartable.
 Print Assumptions C12_close_terminal.
